@@ -1,12 +1,18 @@
+mod alloc;
+mod domain;
 mod fault;
 mod mux;
 mod read;
+mod robust;
 mod tables;
 mod trunc;
 mod streams;
 mod util;
 
 use serde_json::Value;
+
+#[global_allocator]
+static GLOBAL: alloc::Counting = alloc::Counting;
 use std::fs::File;
 use std::io::{BufRead, BufReader, BufWriter, Write};
 
@@ -51,6 +57,33 @@ fn main() {
             drop(out);
             w.flush().unwrap();
             println!("{{\"cases\":{},\"events\":{}}}", cases.len(), n);
+        }
+        "domain-run" => {
+            // domain-run <tables.json> <trace.ndjson> <exhaustive:0|1>
+            let tables: Value = serde_json::from_reader(BufReader::new(File::open(&a[2]).unwrap())).unwrap();
+            let mut w = BufWriter::new(File::create(&a[3]).unwrap());
+            let mut out = mux::Out { w: &mut w, events: 0 };
+            domain::run(&tables, a.get(4).map(|x| x == "1").unwrap_or(false), &mut out);
+            let n = out.events;
+            drop(out);
+            w.flush().unwrap();
+            println!("{{\"cases\":1,\"events\":{}}}", n);
+        }
+        "robust-run" => {
+            // robust-run <bases.ndjson> <trace.ndjson> [first-base]
+            let bases = read_cases(&a[2]);
+            let mut w = BufWriter::new(File::create(&a[3]).unwrap());
+            let mut out = mux::Out { w: &mut w, events: 0 };
+            let (mut total, mut panics) = (0u64, 0u64);
+            for (i, b) in bases.iter().enumerate() {
+                let (t, p) = robust::run_base(i as u64, b, &mut out);
+                total += t;
+                panics += p;
+            }
+            let n = out.events;
+            drop(out);
+            w.flush().unwrap();
+            println!("{{\"cases\":{},\"events\":{},\"panics\":{}}}", total, n, panics);
         }
         "fault-run" => {
             let cases = read_cases(&a[2]);
